@@ -161,6 +161,65 @@ class GetOnlyCache(Cache):
         self.store[fp] = value
 
 
+class _DelegatingBehaviour:
+    """a plain mixin (not an Evaluatable) that supplies the four operations by delegation"""
+
+    def evaluate(self, options):
+        return self.inner.evaluate(options)
+
+    def validate(self, options):
+        self.inner.validate(options)
+
+    def keys(self, options):
+        return self.inner.keys(options)
+
+    def explain(self, options=None):
+        return self.inner.explain(options)
+
+
+class _CustomDirect(Evaluatable):
+    """a user-defined Evaluatable: the four operations are defined in the class body"""
+
+    def __init__(self, inner):
+        self.inner = inner
+
+    def evaluate(self, options):
+        return self.inner.evaluate(options)
+
+    def validate(self, options):
+        self.inner.validate(options)
+
+    def keys(self, options):
+        return self.inner.keys(options)
+
+    def explain(self, options=None):
+        return self.inner.explain(options)
+
+    def __repr__(self):
+        return f"{type(self).__name__}({self.inner!r})"
+
+
+class _CustomMixin(_DelegatingBehaviour, Evaluatable):
+    """... inherited from a plain mixin listed before Evaluatable"""
+
+    def __init__(self, inner):
+        self.inner = inner
+
+    def __repr__(self):
+        return f"{type(self).__name__}({self.inner!r})"
+
+
+class _CustomSub(_CustomDirect):
+    """... a subclass of a user-defined Evaluatable that defines nothing itself"""
+
+
+class _CustomSubMixin(_CustomMixin):
+    pass
+
+
+CUSTOM_SHAPES = {"direct": _CustomDirect, "mixin": _CustomMixin, "sub": _CustomSub, "sub_mixin": _CustomSubMixin}
+
+
 class _LogHandler(logging.Handler):
     def emit(self, record):
         msg = record.getMessage()
@@ -225,6 +284,23 @@ class _TierExpired(CacheGetFailure):
         self.age = age
 
 
+class _KeyTap(dict):
+    """the `_cache` dict of the MemoryCache behind a front: remembers the key of the last access"""
+    last = None
+
+    def __contains__(self, k):
+        self.last = k
+        return dict.__contains__(self, k)
+
+    def __getitem__(self, k):
+        self.last = k
+        return dict.__getitem__(self, k)
+
+    def __setitem__(self, k, v):
+        self.last = k
+        dict.__setitem__(self, k, v)
+
+
 class ScriptedCache(Cache):
     """A backend that follows the Cache contract but misbehaves per script (C17).  Every third one (by its number) is a
     fault-injecting FRONT over a real `MemoryCache`: it keeps no entries of its own, answers the scripted faults itself and
@@ -236,14 +312,13 @@ class ScriptedCache(Cache):
         self.script = []
         self._tier = NoCache()
         self._mem = MemoryCache() if cid % 3 == 2 else None
+        if self._mem is not None:
+            self._mem._cache = _KeyTap()
 
     def clear(self):
         self.store.clear()
         if self._mem is not None:
             self._mem._cache.clear()
-
-    def _has(self, fp, evaluatable, options):
-        return self._mem.exists(evaluatable, options) if self._mem is not None else fp in self.store
 
     def _drop(self, fp):
         self.store.pop(fp, None)
@@ -271,9 +346,23 @@ class ScriptedCache(Cache):
             return _TierExpired(evaluatable, options, self._tier, 3)
         return CacheGetFailure(evaluatable, options, self)
 
+    def _peek(self):
+        """the next scripted answer, without consuming it"""
+        return self.script[0] if self.script else "behave"
+
     def get(self, evaluatable, options):
         if self._blind("get"):
             raise self._failure(evaluatable, options)
+        if self._mem is not None and self._peek() in ("behave", "lieExists"):
+            # passed on: the MemoryCache behind computes the fingerprint (once, as one backend call does)
+            self._next()
+            try:
+                v = self._mem.get(evaluatable, options)
+            except CacheGetFailure:
+                self._log("get", self._mem._cache.last, "miss")
+                raise self._failure(evaluatable, options)
+            self._log("get", self._mem._cache.last, "hit")
+            return v
         fp = evaluatable.fingerprint(options)
         f = self._next()
         if f in ("miss", "failGet"):
@@ -283,14 +372,6 @@ class ScriptedCache(Cache):
             self._drop(fp)
             self._log("get", fp, "fault")
             raise self._failure(evaluatable, options)
-        if self._mem is not None:
-            try:
-                v = self._mem.get(evaluatable, options)
-            except CacheGetFailure:
-                self._log("get", fp, "miss")
-                raise self._failure(evaluatable, options)
-            self._log("get", fp, "hit")
-            return v
         if fp in self.store:
             self._log("get", fp, "hit")
             return self.store[fp]
@@ -300,6 +381,11 @@ class ScriptedCache(Cache):
     def exists(self, evaluatable, options):
         if self._blind("exists"):
             return True
+        if self._mem is not None and self._peek() in ("behave", "failGet"):
+            self._next()
+            hit = self._mem.exists(evaluatable, options)
+            self._log("exists", self._mem._cache.last, "hit" if hit else "miss")
+            return hit
         fp = evaluatable.fingerprint(options)
         f = self._next()
         if f == "miss":
@@ -312,20 +398,22 @@ class ScriptedCache(Cache):
             self._drop(fp)
             self._log("exists", fp, "fault")
             return False
-        hit = self._has(fp, evaluatable, options)
+        hit = fp in self.store
         self._log("exists", fp, "hit" if hit else "miss")
         return hit
 
     def set(self, evaluatable, options, value):
+        if self._mem is not None and self._peek() not in ("miss", "forget"):
+            self._next()
+            self._mem.set(evaluatable, options, value)
+            self._log("set", self._mem._cache.last, "stored")
+            return
         fp = evaluatable.fingerprint(options)
         f = self._next()
         if f in ("miss", "forget"):
             self._log("set", fp, "fault")
             return
-        if self._mem is not None:
-            self._mem.set(evaluatable, options, value)
-        else:
-            self.store[fp] = value
+        self.store[fp] = value
         self._log("set", fp, "stored")
 
 
@@ -454,6 +542,8 @@ class Graph:
                 self._reg_factory(dn)
             if mn is not None and not isinstance(kw.get('domain'), Evaluatable):
                 self.built[mn] = self.reg(obj.domain, mn)
+        elif k == "apply" and n.get("custom"):
+            obj = CUSTOM_SHAPES[n["custom"]](self.node(n["e"]))
         elif k == "apply" and n.get("dsclass"):
             spec = n["dsclass"]
             ns = {"__annotations__": {}}
@@ -609,6 +699,8 @@ class Graph:
             obj = Pipeline(self.node(n["tail"]), rest)
         elif k == "overloaded":
             obj = self.overloaded(n["ov"])
+        elif k == "dataset" and n.get("iface"):
+            obj = self.interface_member(nid)
         elif k == "dataset":
             obj = self.dataset(n["ds"], nid)
         elif k == "namespace":
@@ -690,6 +782,83 @@ class Graph:
             obj = self.built[dn]
             if d["f"] not in self.built:
                 self.built[d["f"]] = self.reg(obj.func, d["f"])
+
+    def _def(self, name, params, fn):
+        """a real function `def name(p=<default>, ...): return fn(p=p, ...)` whose defaults are the argument nodes"""
+        defaults = [self.raw_or_node(a)[1] for _, a in params]
+        src = "def {n}({ps}):\n    return _fn({args})\n".format(
+            n=name, ps=", ".join(f"{p}=_d[{i}]" for i, (p, _) in enumerate(params)),
+            args=", ".join(f"{p}={p}" for p, _ in params))
+        ns = {"_d": defaults, "_fn": fn}
+        exec(src, ns)
+        f = ns[name]
+        f.__module__ = "pdl"
+        return f
+
+    def interface_member(self, nid):
+        """`@interface(dispatch) class I<k>: ...` built once for all its members (class statement + decorator)"""
+        from labrea import interface as _interface
+        spec = self.nodes[nid]["iface"]
+        key = ("iface", spec["id"])
+        if key not in self.built:
+            dn = self.nodes[spec["dispatch"]]
+            disp = dn["key"] if (dn["k"] == "option" and dn.get("bare")) else self.node(spec["dispatch"])
+            ns = {"__annotations__": {}}
+            for name, kind, mn in spec["members"]:
+                m = self.nodes[mn]
+                d = self.dss[m["ds"]]
+                o = self.ovs[d["ov"]]
+                if kind == "ann":
+                    ns["__annotations__"][name] = object
+                elif kind == "fn":
+                    fa = self.nodes[o["dflt"]]
+                    ns[name] = self._def(name, fa.get("kw", []), dec(self.nodes[fa["f"]]["v"]))
+                else:
+                    fa = self.nodes[o["dflt"]]
+                    ns[name] = self.raw_or_node(fa["args"][0])[1]
+            import types as _types
+            cls = _interface(disp)(_types.new_class(f"I{spec['id']}", (), exec_body=lambda d_, _ns=ns: d_.update(_ns)))
+            self.built[key] = cls
+            for name, kind, mn in spec["members"]:
+                member = getattr(cls, name)
+                m = self.nodes[mn]
+                d = self.dss[m["ds"]]
+                self.ds_objs[m["ds"]] = member
+                self.ov_objs[d["ov"]] = member.overloads
+                self.built[mn] = self.reg(member, mn)
+                if isinstance(disp, str):
+                    self.built[spec["dispatch"]] = self.reg(member.overloads.dispatch, spec["dispatch"])
+                # observe the member's own cache (whatever kind the library gave it) without replacing it
+                c = getattr(member, "cache", None)
+                if isinstance(c, MemoryCache) and not isinstance(c._cache, LogDict):
+                    c._cache = LogDict(d["cache"])
+                self.caches[d["cache"]] = c
+        return self.built[nid]
+
+    def implementation(self, group):
+        """`@implements(I, alias=[...]) class Impl: ...`"""
+        from labrea import implements as _implements
+        some = next(iter(group["iface_nodes"].values()))
+        self.node(some)
+        cls_i = self.built[("iface", group["iface"])]
+        ns = {}
+        for name, kind, inid in group["members"]:
+            if kind == "fn":
+                fa = self.nodes[inid]
+                ns[name] = self._def(name, fa.get("kw", []), dec(self.nodes[fa["f"]]["v"]))
+            elif kind == "const":
+                ns[name] = dec(self.nodes[inid]["v"])
+            else:
+                ns[name] = self.node(inid)
+        import types as _types
+        aliases = [_hashable(dec(a)) for a in group["aliases"]]
+        impl = _implements(cls_i, alias=aliases if len(aliases) > 1 else aliases[0])(
+            _types.new_class(f"Impl{len(KEEP)}", (), exec_body=lambda d_, _ns=ns: d_.update(_ns)))
+        for name, kind, inid in group["members"]:
+            if kind != "node":
+                self.built[inid] = self.reg(getattr(impl, name), inid)
+        KEEP.append(impl)
+        return impl
 
     def _cb(self, nid):
         if self.nodes[nid]["k"] == "logeffect":
@@ -939,6 +1108,11 @@ def run_op(g, op):
 
 def _run_mutator(g, op, name):
     try:
+        if name == "register" and op.get("impl_skip"):
+            return {"ok": True}
+        if name == "register" and op.get("impl_group"):
+            g.implementation(op["impl_group"])
+            return {"ok": True}
         if name == "register":
             # (a dataset that owns this table is built first — registering on a dataset defined but not yet used)
             for nid, nd in g.nodes.items():
